@@ -125,7 +125,7 @@ def opRoundtrip (s : Str) : String :=
       s!"ok rest2={e rest2} same={if same then 1 else 0} eq={if same then 1 else 0} fix={if fix then 1 else 0}"
 
 /-- does the round-trip theorem (Thm/C04 `print_parse_roundtrip`) speak about the document this text parses to?
-    profile: no XML declaration, no DOCTYPE; then each hypothesis of the theorem, evaluated -/
+    profile: what `canonDoc` can write (no DOCTYPE with a public identifier only, ...); then each hypothesis of the theorem, evaluated -/
 def opThm04 (s : Str) : String :=
   match parseDoc s with
   | .error x => s!"err:{errClass x}"
@@ -134,6 +134,6 @@ def opThm04 (s : Str) : String :=
     | none => "profile=0"
     | some cd =>
       let b (x : Bool) : Nat := if x then 1 else 0
-      s!"profile=1 ok={b cd.ok} faithful={b (d.kids.all faithfulTop)} depth={b (cd.root.depth ≤ Gen.Xml.maxDepth_element)} canon={b (printDoc d == cd.str)}"
+      s!"profile=1 ok={b cd.ok} faithful={b (d.kids.all faithfulTop)} depth={b (cd.root.depth ≤ Gen.Xml.maxDepth_element && doctypeDepth cd.doctype ≤ Gen.Xml.maxDepth_children)} canon={b (printDoc d == cd.str)}"
 
 end Driver
